@@ -7,8 +7,8 @@ import (
 	"time"
 
 	"github.com/ipfs/go-cid"
+	cidlink "github.com/ipld/go-ipld-prime/linking/cid"
 	"github.com/ipni/go-libipni/dagsync"
-	"github.com/ipni/go-libipni/ingest/schema"
 
 	"verif/sim/simkit"
 )
@@ -47,16 +47,20 @@ const (
 	fkStoreLose
 	fkRefuse
 	fkNum
+	// kinds below are used by C02 only
+	fkOversize = 24
 )
 
 var fkNames = []string{"status404", "status403", "status400", "status429", "status500", "status503", "reset-before", "reset-mid",
 	"truncate", "short-cl", "flip", "empty", "substitute", "append", "stall", "delay-long", "cancel", "hook-fail",
-	"store-commit-error", "store-write-error", "store-open-error", "store-lost-commit", "refuse"}
+	"store-commit-error", "store-write-error", "store-open-error", "store-lost-commit", "refuse", "", "oversize"}
 
 type faultPlan struct {
-	kind int
-	at   int // request release ordinal / block index / store op ordinal
-	arg  int
+	kind  int
+	at    int // request release ordinal / block index / store op ordinal
+	arg   int
+	exact bool   // arg is the exact byte / bit position
+	body  []byte // substitute / append payload, when set
 }
 
 type syncWorld struct {
@@ -118,8 +122,16 @@ func (sw *syncWorld) policy(q *simkit.ReqRecord) simkit.FaultSpec {
 			f = simkit.FaultSpec{Kind: simkit.FResetMid, K: 10 + p.arg%50}
 		case fkTruncate:
 			f = simkit.FaultSpec{Kind: simkit.FTruncate, K: 5 + p.arg%200}
+			if p.exact {
+				f.K = p.arg
+			}
 		case fkShortCL:
 			f = simkit.FaultSpec{Kind: simkit.FShortCL, K: 5 + p.arg%200}
+			if p.exact {
+				f.K = p.arg
+			}
+		case fkOversize:
+			f = simkit.FaultSpec{Kind: simkit.FOversize}
 		case fkFlip:
 			f = simkit.FaultSpec{Kind: simkit.FFlip, K: p.arg}
 		case fkEmpty:
@@ -129,9 +141,15 @@ func (sw *syncWorld) policy(q *simkit.ReqRecord) simkit.FaultSpec {
 			if p.arg%2 == 1 {
 				f.Body = []byte("{}")
 			}
+			if p.body != nil {
+				f.Body = p.body
+			}
 		case fkSubstitute:
 			other := sw.pub.Ads[p.arg%len(sw.pub.Ads)]
 			b, _ := sw.pub.Store.Get(other)
+			if p.body != nil {
+				b = p.body
+			}
 			f = simkit.FaultSpec{Kind: simkit.FSubstitute, Body: b}
 		case fkStall:
 			f = simkit.FaultSpec{Kind: simkit.FStall}
@@ -150,7 +168,7 @@ func (sw *syncWorld) policy(q *simkit.ReqRecord) simkit.FaultSpec {
 		default:
 			continue
 		}
-		sw.fired = append(sw.fired, fmt.Sprintf("%s@%d(%s)", fkNames[p.kind], ord, q.Path[max(0, len(q.Path)-8):]))
+		sw.fired = append(sw.fired, fmt.Sprintf("%s@%d(%s)", fkNames[p.kind], ord, q.Sym[max(0, len(q.Sym)-8):]))
 		return f
 	}
 	return simkit.FaultSpec{}
@@ -206,10 +224,12 @@ type c04Cfg struct {
 	preSynced int // ads synced fault-free before the faulty phase
 	twoLive   bool
 	dead      int
+	proto     *cidlink.LinkPrototype
+	hashName  string
 }
 
 func (c c04Cfg) String() string {
-	return fmt.Sprintf("announce=%v discovery=%v seg=%d retry=%v ads=%d presynced=%d twoLive=%v dead=%d", c.announce, c.discovery, c.seg, c.retry, c.nAds, c.preSynced, c.twoLive, c.dead)
+	return fmt.Sprintf("announce=%v discovery=%v seg=%d retry=%v ads=%d presynced=%d twoLive=%v dead=%d hash=%s", c.announce, c.discovery, c.seg, c.retry, c.nAds, c.preSynced, c.twoLive, c.dead, c.hashName)
 }
 
 // c04 enumerated cases: 2 triggers x 2 transports x 2 segmentations, chain of
@@ -236,13 +256,10 @@ func c04Describe(c int) string {
 	return fmt.Sprintf("%s; single fault %s at index %d", cfg, fkNames[p.kind], p.at)
 }
 
-func runC04(r *simkit.Run, c Cfg) { runFaultSync(r, c, "c04") }
+func runC04(r *simkit.Run, c Cfg) { runFaultSync(r, c, "c04", c04Plan) }
 
-func runFaultSync(r *simkit.Run, c Cfg, mode string) {
+func c04Plan(r *simkit.Run, c Cfg, w *World) (c04Cfg, []faultPlan) {
 	tp := r.Tape
-	w := NewWorld(r)
-	r.EnableSites(map[string]bool{})
-
 	var cfg c04Cfg
 	var plans []faultPlan
 	if c.Case >= 0 {
@@ -267,7 +284,17 @@ func runFaultSync(r *simkit.Run, c Cfg, mode string) {
 			plans = append(plans, faultPlan{kind: tp.Choose(fkNum, "fkind"), at: tp.Choose(cfg.nAds+4, "fat"), arg: tp.Choose(1000, "farg")})
 		}
 	}
-	po := PubOpts{Name: "P1", NAds: cfg.preSynced, Discovery: cfg.discovery, Hosts: []string{"10.0.0.1:3104"}}
+	return cfg, plans
+}
+
+type planFunc func(r *simkit.Run, c Cfg, w *World) (c04Cfg, []faultPlan)
+
+func runFaultSync(r *simkit.Run, c Cfg, mode string, planner planFunc) {
+	w := NewWorld(r)
+	r.EnableSites(map[string]bool{})
+
+	cfg, plans := planner(r, c, w)
+	po := PubOpts{Name: "P1", NAds: cfg.preSynced, Discovery: cfg.discovery, Hosts: []string{"10.0.0.1:3104"}, Proto: cfg.proto}
 	if cfg.preSynced == 0 {
 		po.NAds = 0
 	}
@@ -348,6 +375,7 @@ func runFaultSync(r *simkit.Run, c Cfg, mode string) {
 	}
 	ev0 := len(sw.events)
 	hook0 := len(sub.Hooks())
+	req1start := len(w.Net.Requests())
 	a1 := trigger(head, !cfg.announce, "faulty")
 	out := settle(a1, !cfg.announce, ev0)
 	sw.pump()
@@ -398,7 +426,7 @@ func runFaultSync(r *simkit.Run, c Cfg, mode string) {
 	if err := sub.Store.Audit(); err != nil {
 		r.Violate(mode+".audit", "after the faulty attempt (%v): %v", sw.fired, err)
 	}
-	c02CheckHooks(sw, mode, sub.HooksSince(hook0))
+	c02Check(sw, mode, failed, req1start, sub.HooksSince(hook0))
 
 	// Phase 2: heal, then sync the same head again through the same
 	// subscriber: must succeed and converge to the fault-free result.
@@ -469,17 +497,33 @@ func c04CheckSuccess(sw *syncWorld, mode, what string, head cid.Cid, expected []
 	}
 }
 
-// c02CheckHooks: no block handed to the hook may differ from what the
-// publisher holds for that CID (the store audit covers stored bytes).
-func c02CheckHooks(sw *syncWorld, mode string, hooks []HookCall) {
-	for _, h := range hooks {
-		got, ok := sw.sub.Store.Get(h.Cid)
-		want, ok2 := sw.pub.Store.Get(h.Cid)
-		if ok && ok2 && string(got) != string(want) {
-			// dag-json re-encoding is canonical here: stored bytes equal the
-			// publisher's encoding of the same node.
-			if _, err := schema.BytesToAdvertisement(h.Cid, got); err != nil {
-				sw.w.R.Violate(mode+".hooked-corrupt", "hook was given %s whose stored bytes are not the publisher's", h.Name)
+// c02Check: a block request answered with bytes that differ from the
+// publisher's block must make the sync fail; neither that block nor anything
+// older in the chain may reach the hook.
+func c02Check(sw *syncWorld, mode string, failed bool, reqFrom int, hooks []HookCall) {
+	w, r := sw.w, sw.w.R
+	for _, q := range w.Net.Requests()[reqFrom:] {
+		if q.Server != sw.pub.Name || !q.Done || !q.Altered() || q.Status != 200 {
+			continue
+		}
+		base := q.Path[strings.LastIndex(q.Path, "/")+1:]
+		c, err := cid.Decode(base)
+		if err != nil {
+			continue // head or discovery request
+		}
+		r.Probe("altered-block-served")
+		if !failed {
+			r.Violate(mode+".accepted", "block %s was served altered (%s) and the sync still succeeded", w.CidName(c), q.Fault.String())
+		}
+		idx := sw.pub.AdIndex(c)
+		for _, h := range hooks {
+			if hi := sw.pub.AdIndex(h.Cid); h.Cid == c || (idx >= 0 && hi >= 0 && hi < idx) {
+				r.Violate(mode+".hooked", "hook was given %s although %s had been served altered (%s)", h.Name, w.CidName(c), q.Fault.String())
+			}
+		}
+		if b, ok := sw.sub.Store.Get(c); ok {
+			if want, _ := sw.pub.Store.Get(c); string(b) != string(want) {
+				r.Violate(mode+".stored", "altered bytes for %s were committed to the store", w.CidName(c))
 			}
 		}
 	}
